@@ -170,6 +170,77 @@ def replay_lost(n, dynamic, retries, maxr, failed, in_router):
   return _lost(L.real_client, n, dynamic, retries, maxr, failed, in_router)
 
 
+def _outage(mod, n0, n1, n2, fails, connected_first, batch):
+  """Through the client manager with a dynamic router: arrivals, an outage of `fails` failed attempts
+  (the destination is declared down after DYNAMIC_ROUTER_MAX_RETRIES = 2), arrivals during the outage
+  (buffered by the manager's stand-in factory), recovery, more arrivals, timers run out.  Whatever
+  the lengths: every accepted datapoint reaches the connection exactly once, in arrival order."""
+  clock = L.configure(mod, 2, 50, 60, batch, dynamic=True, max_retries=2)
+  router = L.StubRouter([])
+  mgr = mod.CarbonClientManager(router)
+  fake = mgr.client_factories[None]
+
+  def relay(metric, datapoint):
+    mgr.sendDatapoint(metric, datapoint)
+  events.metricGenerated.addHandler(relay)
+  accepted, sent = [], []
+  try:
+    mgr.startClient(L.DEST)
+    f = mgr.client_factories[L.DEST]
+    f.clock, f.jitter, f.connector, f.started = clock, 0, L.Connector(), True
+    drops0 = L.stat('destinations.10_0_0_1:2004:a.fullQueueDrops')
+
+    def arrive(k):
+      for _ in range(k):
+        item = ('m', (len(accepted), len(accepted)))
+        events.metricGenerated(*item)
+        accepted.append(item)
+    proto = None
+    if connected_first:
+      proto, t, batches = L.connect(f)
+      sent.append(batches)
+    arrive(n0)
+    for i in range(fails):
+      if i == 0 and proto is not None:
+        L.lose(f, proto, failed=False)
+      else:
+        L.lose(f, None, failed=True)
+    declared_down = fails >= 2 or not connected_first
+    if declared_down == router.hasDestination(L.DEST):
+      raise AssertionError('router membership wrong after %d failed attempts' % fails)
+    arrive(n1)
+    if fails > 0 or not connected_first:
+      cover('recovered_after_down' if declared_down else 'reconnected')
+      proto, t, batches = L.connect(f)
+      sent.append(batches)
+    arrive(n2)
+    L.drain_clock(clock)
+    flat = [x for bs in sent for b in bs for x in b]
+    if flat != accepted:
+      raise AssertionError('accepted %d datapoints, %d reached the connection (held back: %d, stand-in buffer: %d)'
+                           % (len(accepted), len(flat), len(f.queue), len(fake.queue)))
+    if L.stat('destinations.10_0_0_1:2004:a.fullQueueDrops') != drops0:
+      raise AssertionError('drops counted far below the hard limit')
+  finally:
+    events.metricGenerated.removeHandler(relay)
+    events.resumeReceivingMetrics.removeHandler(fake.reinjectDatapoints)
+  return True
+
+
+def C07_outage(n0: int, n1: int, n2: int, fails: int, connected_first: bool, batch: int) -> bool:
+  """
+  pre: 0 <= n0 <= 2 and 0 <= n1 <= 2 and 0 <= n2 <= 2
+  pre: 0 <= fails <= 3
+  pre: 1 <= batch <= 3
+  post: __return__
+  """
+  return _outage(L.SHADOW, n0, n1, n2, fails, connected_first, batch)
+
+
+def replay_outage(n0, n1, n2, fails, connected_first, batch):
+  return _outage(L.real_client, n0, n1, n2, fails, connected_first, batch)
+
+
 def _stop(mod, n, batch, kind, via_manager):
   """Orderly stop of a connected destination: the connection is closed only after the whole queue
   has been handed to the transport."""
@@ -410,6 +481,12 @@ HARNESSES = [
     encodes=['carbon.client:CarbonClientFactory.clientConnectionLost', 'carbon.client:CarbonClientFactory.clientConnectionFailed',
              'carbon.client:CarbonClientFactory.destinationDown'],
     assumptions=_ASSUME + ['symbolic retry count and DYNAMIC_ROUTER_MAX_RETRIES (0..8), queue length 0..3']),
+  H('C07_outage', quick=dict(timeout=280, shards=[('f%d' % k, 'fails == %d' % k) for k in range(4)]), covers=['recovered_after_down', 'reconnected'], replay='replay_outage',
+    twin_pre=['fails >= 1'],
+    encodes=['carbon.client:CarbonClientManager.sendDatapoint / getFactories / startClient', 'carbon.client:FakeClientFactory.reinjectDatapoints',
+             'carbon.client:CarbonClientFactory.destinationUp / destinationDown / clientConnectionMade'],
+    assumptions=_ASSUME + ['client manager with a dynamic router and one destination, DYNAMIC_ROUTER_MAX_RETRIES = 2; 0-2 arrivals before, during and after an outage of '
+                           '0-3 failed attempts; metricGenerated wired to the manager as the relay pipeline does']),
   H('C07_stop', quick=dict(timeout=280, shards=[('n%d' % k, 'n == %d' % k) for k in range(6)]), covers=['stopped'], replay='replay_stop',
     twin_pre=['n <= 5'],
     encodes=['carbon.client:CarbonClientFactory.disconnect', 'carbon.client:CarbonClientManager.stopClient',
